@@ -1,4 +1,4 @@
-import StorageModel.C04.Cascade
+import StorageModel.C04.Child
 /-
   C04 — exactness of restrict and cascade (statements re-exported as property theorems in
   Properties/C04.lean; kept here so that SpecProofs.lean can use them too).
@@ -209,27 +209,36 @@ theorem deleteA_error (σ : Schema) : ∀ (n : Nat) (prog : List Bytes) (s : St)
       rcases passA_error hp with h1 | ⟨st', x, h1⟩
       · exact Or.inl h1
       · exact ih _ _ _ _ h1
+    have hrounds : ∀ (l : List (Option Child)) (st : St), l.foldlM (roundA σ (deleteA σ n) prog id) st = .error e →
+        e = .notFound ∨ e = .other ∨ e = .diverge := by
+      intro l
+      induction l with
+      | nil => intro st hl; simp [List.foldlM_nil, pure, Except.pure] at hl
+      | cons r rest ihl =>
+        intro st hl
+        simp only [List.foldlM_cons, bind_error] at hl
+        rcases hl with h1 | ⟨st1, _, h2⟩
+        · unfold roundA at h1
+          split at h1
+          · cases h1
+          · next e' hp => cases h1; exact hpass _ hp
+        · exact ihl st1 h2
     unfold deleteA at h
     split at h
     · split at h
       · split at h
-        · split at h
-          · cases h
-          · cases h; exact Or.inr (Or.inl rfl)
-        · next e' hF => cases h; exact hpass _ hF
-      · next e' h0 =>
-        cases h
-        split at h0
-        · exact hpass _ h0
-        · cases h0
+        · cases h
+        · cases h; exact Or.inr (Or.inl rfl)
+      · next e' hF => cases h; exact hrounds _ _ hF
     · cases h; exact Or.inl rfl
 
 /-- a reference-exists refusal has a reason: some entity refers to `b` through `owner`, or — restrict
     variant — through `dep` -/
-theorem deleteB_refExists_inv {σ : Schema} {s : St} {b : Bytes} (hI : Inv σ s)
+theorem deleteB_refExists_inv {σ : Schema} {s : St} {b : Bytes} (hI : Inv σ s) (hM : CInv σ s)
     (h : deleteB σ s b = .error .refExists) :
     (∃ k e, s.as.lookup k = some e ∧ evalVal e.owner = b ∧ b ≠ []) ∨
-    (σ.depCascade = false ∧ ∃ k e, s.as.lookup k = some e ∧ e.dep = some b) := by
+    (σ.depCascade = false ∧ ∃ k e, s.as.lookup k = some e ∧ e.dep = some b) ∨
+    (∃ c k e, s.as.lookup k = some e ∧ (mentorOf σ c e = some b ∨ guardOf σ c e = some b)) := by
   have hR : ∀ st, Inv σ st → Sub st s →
       beforeDeleteB σ (deleteA σ (fuelOf s) []) b st .thingsRestrict = .error .refExists →
       ∃ k e, s.as.lookup k = some e ∧ evalVal e.owner = b ∧ b ≠ [] := by
@@ -259,10 +268,36 @@ theorem deleteB_refExists_inv {σ : Schema} {s : St} {b : Bytes} (hI : Inv σ s)
       · cases hr
   unfold deleteB at h
   split at h
-  · split at h
-    · split at h
-      · cases h
-      · cases h
+  · next hb =>
+    split at h
+    · next sF hF =>
+      split at h
+      · next hcr =>
+        -- refused by a restrict check of a child-declared fk
+        right; right
+        obtain ⟨_, hsub, _, _, _⟩ := deleteB_fold_ok hI hF
+        have hMF : CInv σ sF := deleteB_fold_cinv hM hF
+        have hbne : b ≠ [] := by
+          intro hb0; subst hb0
+          obtain ⟨v, hv⟩ := (Map.contains_iff _ _).1 hb
+          rw [hI.nonEmptyB] at hv; cases hv
+        have key : ∀ c, childRestrict σ sF b c = true →
+            ∃ k e, s.as.lookup k = some e ∧ (mentorOf σ c e = some b ∨ guardOf σ c e = some b) := by
+          intro c hc
+          simp only [childRestrict, Bool.or_eq_true, Bool.and_eq_true, decide_eq_true_eq] at hc
+          rcases hc with ⟨_, hne⟩ | hne
+          · obtain ⟨k, hk⟩ := List.exists_mem_of_ne_nil _ hne
+            obtain ⟨e, he, hv, _, _⟩ := ((hMF.men c) b k).1 hk
+            exact ⟨k, e, hsub k e he, Or.inl (evalVal_eq_some hv hbne)⟩
+          · obtain ⟨k, hk⟩ := List.exists_mem_of_ne_nil _ hne
+            obtain ⟨e, he, hf⟩ := (isReferrer_iff sF _ b k).1 ((mem_referrers sF _ b k).1 hk)
+            exact ⟨k, e, hsub k e he, Or.inr hf⟩
+        rcases Bool.or_eq_true_iff.1 hcr with h1 | h1
+        · obtain ⟨k, e, he, hx⟩ := key .c1 h1; exact ⟨.c1, k, e, he, hx⟩
+        · obtain ⟨k, e, he, hx⟩ := key .c2 h1; exact ⟨.c2, k, e, he, hx⟩
+      · split at h
+        · cases h
+        · cases h
     · next e hF =>
       cases h
       unfold orderB at hF
@@ -270,7 +305,7 @@ theorem deleteB_refExists_inv {σ : Schema} {s : St} {b : Bytes} (hI : Inv σ s)
       case true =>
         simp only [hdf, if_true, List.foldlM_cons, List.foldlM_nil, bind_error] at hF
         rcases hF with h1 | ⟨s1, h1, hF⟩
-        · exact Or.inr (hC s hI rfl h1)
+        · exact Or.inr (Or.inl (hC s hI rfl h1))
         · obtain ⟨a, b', _, _⟩ := depCascadeStep hI h1
           rcases hF with h2 | ⟨s2, h2, hF⟩
           · exact Or.inl (hR s1 a b' h2)
@@ -281,8 +316,73 @@ theorem deleteB_refExists_inv {σ : Schema} {s : St} {b : Bytes} (hI : Inv σ s)
         · exact Or.inl (hR s hI (Sub.refl _) h1)
         · obtain ⟨rfl, _⟩ := restrictStep hI h1
           rcases hF with h2 | ⟨s2, h2, hF⟩
-          · exact Or.inr (hC s1 hI rfl h2)
+          · exact Or.inr (Or.inl (hC s1 hI rfl h2))
           · cases hF
   · cases h
+
+/-- **Restrict refuses for the child-declared fks too**: while an entity refers to `b` through a mentor index or
+    a guard constraint that one of the child stores declares, deleting `b` returns the reference-exists error and
+    changes nothing — in the variants where no cascade runs before these checks (`dep` restricts). -/
+theorem deleteB_refuses_child (σ : Schema) (s : St) (b : Bytes) (hI : Inv σ s) (hM : CInv σ s)
+    (hb : s.bs.contains b = true) (hnc : σ.depCascade = false)
+    (href : ∃ c k e, s.as.lookup k = some e ∧ (mentorOf σ c e = some b ∨ guardOf σ c e = some b)) :
+    step σ s (.deleteB b) = (s, some .refExists) := by
+  have hbne : b ≠ [] := by
+    intro hb0; subst hb0
+    obtain ⟨v, hv⟩ := (Map.contains_iff _ _).1 hb
+    rw [hI.nonEmptyB] at hv; cases hv
+  have hrestrict_ok : ∀ delA st, beforeDeleteB σ delA b st .thingsRestrict = .ok st ∨
+      beforeDeleteB σ delA b st .thingsRestrict = .error .refExists := by
+    intro delA st; simp only [beforeDeleteB]; split <;> simp
+  have hdep_ok : ∀ delA st, beforeDeleteB σ delA b st .depCascade = .ok st ∨
+      beforeDeleteB σ delA b st .depCascade = .error .refExists := by
+    intro delA st; simp only [beforeDeleteB, hnc, Bool.false_eq_true, if_false]; split <;> simp
+  have okb : ∀ (a : St) (f : St → Res), (Except.ok a >>= f) = f a := fun _ _ => rfl
+  have errb : ∀ (e : Err) (f : St → Res), ((Except.error e : Res) >>= f) = .error e := fun _ _ => rfl
+  have hfold : (orderB σ).foldlM (beforeDeleteB σ (deleteA σ (fuelOf s) []) b) s = .ok s ∨
+      (orderB σ).foldlM (beforeDeleteB σ (deleteA σ (fuelOf s) []) b) s = .error .refExists := by
+    unfold orderB
+    cases hdf : σ.depFirst
+    case true =>
+      simp only [if_true, List.foldlM_cons, List.foldlM_nil]
+      rcases hdep_ok (deleteA σ (fuelOf s) []) s with h1 | h1
+      · rw [h1, okb]
+        rcases hrestrict_ok (deleteA σ (fuelOf s) []) s with h2 | h2
+        · rw [h2, okb]; exact Or.inl rfl
+        · rw [h2, errb]; exact Or.inr rfl
+      · rw [h1, errb]; exact Or.inr rfl
+    case false =>
+      simp only [Bool.false_eq_true, if_false, List.foldlM_cons, List.foldlM_nil]
+      rcases hrestrict_ok (deleteA σ (fuelOf s) []) s with h1 | h1
+      · rw [h1, okb]
+        rcases hdep_ok (deleteA σ (fuelOf s) []) s with h2 | h2
+        · rw [h2, okb]; exact Or.inl rfl
+        · rw [h2, errb]; exact Or.inr rfl
+      · rw [h1, errb]; exact Or.inr rfl
+  have hcr : (childRestrict σ s b .c1 || childRestrict σ s b .c2) = true := by
+    obtain ⟨c, k, e, he, hx⟩ := href
+    have hc : childRestrict σ s b c = true := by
+      simp only [childRestrict, Bool.or_eq_true, Bool.and_eq_true, decide_eq_true_eq]
+      rcases hx with hm | hg
+      · left
+        have hidx : σ.idx c = true := by
+          cases hi : σ.idx c with
+          | true => rfl
+          | false => rw [mentorOf_undeclared hi] at hm; cases hm
+        refine ⟨hidx, ?_⟩
+        have hk : k ∈ ((s.mentees c).lookup b).getD [] :=
+          ((hM.men c) b k).2 ⟨e, he, by simp [evalVal, hm], hbne, fun h => h⟩
+        intro hn; rw [hn] at hk; cases hk
+      · right
+        have hk : k ∈ referrers s (guardOf σ c) b := (mem_referrers s _ b k).2 ((isReferrer_iff s _ b k).2 ⟨e, he, hg⟩)
+        intro hn; rw [hn] at hk; cases hk
+    cases c
+    · simp [hc]
+    · simp [hc]
+  unfold step apply deleteB
+  simp only [hb, if_true]
+  rcases hfold with h1 | h1
+  · rw [h1]; simp only [hcr, if_true]
+  · rw [h1]
 
 end StorageModel.C04
